@@ -41,6 +41,9 @@ const (
 // One swap from an arbitrary database state with arbitrary inputs and outputs.
 func vhSwapStep(mode int, maxIn, maxOut, rProofs, rPending, rSigs int) {
 	env := vhNewEnv(2)
+	if vhSwapFault {
+		env.hook()
+	}
 	m := env.m
 	raw := env.db.VhRaw()
 	v.SqlSymRows(raw, "proofs", rProofs)
@@ -69,7 +72,17 @@ func vhSwapStep(mode int, maxIn, maxOut, rProofs, rPending, rSigs int) {
 	}
 	s0 := v.SqlSnapshot(raw)
 
-	sigs, err := m.Swap(in, out)
+	var sigs cashu.BlindedSignatures
+	var err error
+	if vhSwapFault {
+		// one storage call of the swap (any one, chosen by the solver) fails: every conclusion drawn from an accepted swap
+		// must still hold - an error swallowed on the way must not open a check
+		if v.FaultRun(func() { sigs, err = m.Swap(in, out) }) {
+			v.Reach("struck")
+		}
+	} else {
+		sigs, err = m.Swap(in, out)
+	}
 
 	s1 := v.SqlSnapshot(raw)
 	if err == nil {
@@ -88,7 +101,12 @@ func vhSwapStep(mode int, maxIn, maxOut, rProofs, rPending, rSigs int) {
 		if mode&vhC02 != 0 {
 			sumIn, sumOut, ppk := v.ZU(0), v.ZU(0), v.ZU(0)
 			for i := range in {
-				sumIn = v.ZAdd(sumIn, v.ZU(in[i].Amount))
+				// value is counted once per secret: a secret presented twice in one request is worth its amount once
+				dup := false
+				for j := 0; j < i; j++ {
+					dup = v.Or(dup, in[i].Secret == in[j].Secret)
+				}
+				sumIn = v.ZAdd(sumIn, v.ZIte(dup, v.ZU(0), v.ZU(in[i].Amount)))
 				ks, ok := m.keysets[in[i].Id]
 				v.Assert(ok, "C02 swap accepted => every input names a keyset of this mint")
 				ppk = v.ZAdd(ppk, v.ZU(uint64(ks.InputFeePpk)))
@@ -108,7 +126,7 @@ func vhSwapStep(mode int, maxIn, maxOut, rProofs, rPending, rSigs int) {
 				}
 			}
 			fee := v.ZCeilDiv(ppk, 1000)
-			v.Assert(v.ZLe(v.ZAdd(sumOut, fee), sumIn), "C02 swap accepted => sum(outputs) + input fee <= sum(inputs) in unbounded integers")
+			v.Assert(v.ZLe(v.ZAdd(sumOut, fee), sumIn), "C02 swap accepted => sum(outputs) + input fee <= sum(inputs, each secret counted once) in unbounded integers")
 		}
 		if mode&vhC15 != 0 {
 			states, serr := m.ProofsStateCheck(ys)
@@ -149,6 +167,14 @@ func vhSwapStep(mode int, maxIn, maxOut, rProofs, rPending, rSigs int) {
 			v.Assert(v.SqlSame(raw, s0, s1), "C06 rejected swap leaves every table unchanged")
 		}
 	}
+}
+
+var vhSwapFault = false
+
+// the C01 step with a storage error injected at any one storage call of the swap
+func VHarnessSwapC01Fault() {
+	vhSwapFault = true
+	vhSwapStep(vhC01, 1, 1, 1, 1, 1)
 }
 
 func VHarnessSwapC01() { vhSwapStep(vhC01, 2, 1, 2, 1, 1) }
